@@ -246,6 +246,21 @@ def gen_cases(tier, seed):
             for b in range(2):
                 for c in range(2):
                     yield "dfs", {"scenario": si, "prefix": [a, b, c]}
+    if not q:
+        # thorough: exhaustive enumeration in larger scopes - 2 peers x 3 messages and 3 peers x (2,1,1) / (2,2,1) messages
+        big = []
+        for a in (["ping", "inv", "ping"], ["inv", "ping", "addr"], ["version", "unknown", "ping"], ["ping0", "inv", "verack"]):
+            for b in (["inv", "ping", "inv"], ["ping", "ping", "ping"], ["unknown", "version", "inv"]):
+                big.append([a, b])
+        for a in (["ping", "inv"], ["inv", "ping"], ["version", "unknown"]):
+            big.append([a, ["ping"], ["inv"]])
+            big.append([a, ["inv"], ["ping0"]])
+            big.append([a, ["ping", "inv"], ["unknown"]])
+        for bi, sc in enumerate(big):
+            for pa in range(len(sc)):
+                for pb in range(len(sc)):
+                    for pc in range(len(sc)):
+                        yield "dfs", {"scenario_list": sc, "prefix": [pa, pb, pc]}
     for i in range(320 if q else 6000):
         yield "random", {"salt": rng.getrandbits(40), "peers": 2 + i % 2, "runs": 60, "gran": "container", "strategy": ["random", "pct"][i % 2]}
     for i in range(96 if q else 2400):
@@ -263,7 +278,10 @@ def required(tier):
 
 
 def exhaustive(tier, counts):
-    return f"all container-level schedules of the {len(SMALL_SCENARIOS)} fixed 2-peer x <=2-message scenarios (depth-first enumeration)"
+    base = f"all container-level schedules of the {len(SMALL_SCENARIOS)} fixed 2-peer x <=2-message scenarios (depth-first enumeration)"
+    if tier == "thorough":
+        base += "; additionally 12 scenarios of 2 peers x 3 messages and 9 scenarios of 3 peers x (2,1,1)/(2,2,1) messages"
+    return base
 
 
 def _scenario(rng, peers):
@@ -291,7 +309,9 @@ def run_case(kind, params, ctx):
         _report(ctx, run, trace, sub["scenario"], sub["gran"], "replay")
         return
     if kind == "dfs":
-        scenario = SMALL_SCENARIOS[params["scenario"]]
+        scenario = params["scenario_list"] if "scenario_list" in params else SMALL_SCENARIOS[params["scenario"]]
+        if "scenario_list" in params:
+            ctx.count("dfs.large_scope_subtrees")
         prefix = list(params["prefix"])
         base = len(prefix)
         n = 0
